@@ -675,7 +675,14 @@ fn scopes_case(lets: &[(String, LE)], decls: &[LDecl], fors: &[LFor]) -> Case {
     let (names, tc, tr, static_any) = match res {
         Ok(Ok(x)) => x,
         Ok(Err(e)) => { c.tags.push("scopes-parse-error".into()); c.show = format!("{}\n{}", src, e); return c; }
-        Err(_) => (lets.iter().map(|l| l.0.clone()).collect(), "(panic)".into(), "(panic)".into(), false),
+        Err(_) => {
+            // a panic somewhere between parse and transform: reported on the implementation, no model comparison
+            c.tags.push("scopes-panic".into());
+            c.show = src.clone();
+            c.sig = Some("panic:typed-program".into());
+            c.impl_violation = Some("a stage between parse and transform panics on a program of the scopes stream".into());
+            return c;
+        }
     };
     let it_sx = |it: &LIt| format!("(it ({}) {} {})", it.vars.iter().map(|v| sx::q(v)).collect::<Vec<_>>().join(" "), if it.tuple { "tuple" } else { "single" }, le_sx(&it.over));
     let its_sx = |its: &Vec<LIt>| its.iter().map(|i| format!(" {}", it_sx(i))).collect::<String>();
@@ -836,7 +843,14 @@ fn lets_case(lets: &[(String, LE)]) -> Case {
             }
             return c;
         }
-        Err(_) => (vec![], "(panic)".into(), vec![], "(panic)".into(), false),
+        Err(_) => {
+            let mut c = Case::default();
+            c.tags = vec!["stream:where-section".into(), "lets-panic".into()];
+            c.show = src.clone();
+            c.sig = Some("panic:typed-program".into());
+            c.impl_violation = Some("a stage between parse and transform panics on a where section".into());
+            return c;
+        }
     };
     // the kind recorded at the position of every constant's name, in source order
     let kind_list: Vec<String> = names.iter().map(|(name, pos)| kinds.iter().find(|k| k.0 == *pos && &k.1 == name).map(|k| k.2.clone()).unwrap_or_else(|| "?".into())).collect();
